@@ -378,7 +378,8 @@ func precedentCorrect(e *Equation) *Equation {
 	if e.left != nil {
 		e.left = precedentCorrect(e.left)
 	}
-	if e.o.code == not.code && e.left != nil && e.left.o != nil && e.left.o.cnt == 2 && e.left.right != nil {
+	if e.o.code == not.code && e.left != nil && e.left.o != nil && e.left.o.cnt == 2 && e.left.right != nil &&
+		e.o.prec < e.left.o.prec {
 		// The operand of ! was read together with the binary operators that
 		// follow it. ! binds tighter so it applies to the left side only.
 		l := e.left
